@@ -25,7 +25,7 @@ impl Prop for C12 {
         vec!["tolerance (100+4n)*eps32*S + 1e-6 for energies, 2e-5 for the matching factor".into()]
     }
     fn cases(tier: Tier) -> u32 {
-        tier.pick(4_000, 150_000)
+        tier.pick(4_000, 600_000)
     }
     fn strategy(tier: Tier) -> BoxedStrategy<BFCase> {
         let mut p = params(tier);
